@@ -60,7 +60,7 @@ fn main() {
                 usage()
             }
             sim::install_panic_hook();
-            runner::set_rlimit_as(3 << 30);
+            runner::set_rlimit_as(1 << 30);
             let c = find(&args[2]);
             match runner::minimize(c, args[4].parse().unwrap_or(1), args[5].parse().unwrap_or(0), args[3] == "thorough", &args[6], &args[7], &args[8]) {
                 Ok(()) => {}
